@@ -298,7 +298,7 @@ def native_sequence(seed=0, linear=False, k_edit=3.0, container="set", assumptio
             if d:
                 problems.append(d)
         base = sc.point(seed)
-        for step, dtv in enumerate([base[sc.dt], Fraction(0), base[sc.dt] / 2, Fraction(1, 2**40)]):
+        for step, dtv in enumerate([base[sc.dt], Fraction(0), base[sc.dt] / 2, Fraction(1, 2**40), -base[sc.dt], -base[sc.dt] / 4]):  # (negative: the managed filter steps backwards to late readings)
             pt = dict(base)
             pt[sc.dt] = dtv
             state, ctl = scenarios.named_state(ekf, sc, pt), scenarios.named_control(ekf, sc, pt)
